@@ -13,7 +13,7 @@ import (
 
 var c05Floor = []string{"keys.1", "keys.2", "keys.3", "dir.asc", "dir.desc", "dir.mixed", "key.null", "key.computed-null", "key.alias", "key.str", "key.num", "ties", "limit.huge",
 	"limit.bare", "limit.offset", "limit.comma", "limit.zero", "offset.beyond", "window.straddle", "window.inside", "window.noorder", "where",
-	"shape.distinct", "shape.agg-all", "shape.group", "shape.union", "shape.bigint", "shape.shrunk-offset"}
+	"shape.distinct", "shape.agg-all", "shape.group", "shape.union", "shape.bigint", "shape.union-order", "shape.qualified", "shape.shrunk-offset"}
 
 func init() {
 	fw.Register(&fw.Prop{
@@ -374,7 +374,7 @@ func c05Order(c *fw.Case) {
 	}
 }
 
-var c05ShapeKinds = []string{"distinct", "agg-all", "group", "union", "bigint"}
+var c05ShapeKinds = []string{"distinct", "agg-all", "group", "union", "bigint", "union-order", "qualified"}
 
 // c05Shapes: the window is cut from the FINAL row sequence, also when that
 // sequence is shorter than the filtered source (DISTINCT, an all-aggregate
@@ -387,7 +387,8 @@ func c05Shapes(c *fw.Case) {
 	doc := func() map[string]any { return DocOf(t) }
 	src := len(t.Rows)
 	var base string
-	exact := true // the un-windowed sequence is deterministic
+	sortedBy, sortedDesc := "", false // output column the un-windowed sequence must be sorted by
+	exact := true                    // the un-windowed sequence is deterministic
 	switch kind {
 	case "distinct":
 		col := gen.Pick(c.R, []string{"s1", "s2", "n1", "b1"})
@@ -406,6 +407,21 @@ func c05Shapes(c *fw.Case) {
 	case "union":
 		col := gen.Pick(c.R, []string{"s1", "s2"})
 		base = "SELECT " + col + " AS v FROM t1 UNION SELECT " + col + " AS v FROM t1"
+	case "union-order":
+		// ORDER BY of a union sorts the combined rows
+		col := gen.Pick(c.R, []string{"s1", "n1"})
+		col2 := map[string]string{"s1": "s2", "n1": "n2"}[col]
+		sortedBy, sortedDesc = "v", c.Chance(0.5)
+		base = "SELECT " + col + " AS v FROM t1 " + gen.Pick(c.R, []string{"UNION ALL", "UNION"}) + " SELECT " + col2 + " AS v FROM t1 ORDER BY v" + map[bool]string{true: " DESC", false: ""}[sortedDesc]
+	case "qualified":
+		// a key named by its qualified source name, over an aliased table
+		col := gen.Pick(c.R, []string{"s1", "n1"})
+		sortedBy, sortedDesc = col, c.Chance(0.5)
+		base = "SELECT x." + col + ", x.rid FROM t1 x ORDER BY x." + col + map[bool]string{true: " DESC", false: " ASC"}[sortedDesc]
+		if c.Chance(0.4) {
+			sortedBy = "k"
+			base = "SELECT x." + col + " AS k, x.rid FROM t1 x ORDER BY x." + col + map[bool]string{true: " DESC", false: ""}[sortedDesc]
+		}
 	case "bigint":
 		pool := []int64{1 << 53, 1<<53 + 1, 1<<53 + 2, 1<<53 + 3, math.MaxInt64, math.MaxInt64 - 1, math.MaxInt64 - 2, -(1 << 53) - 1, -(1 << 53) - 2, math.MinInt64 + 1, math.MinInt64 + 2, 0, 7}
 		unsigned := c.Chance(0.3)
@@ -450,6 +466,26 @@ func c05Shapes(c *fw.Case) {
 			}
 		}
 		c.Nontrivial(base + "|" + val.Canon(t.Array()))
+	}
+	if sortedBy != "" {
+		for i := 1; i < n; i++ {
+			a, b := val.Deref(O[i-1].(map[string]any)[sortedBy]), val.Deref(O[i].(map[string]any)[sortedBy])
+			cmp, err := ref.CmpScalar(a, b)
+			if err != nil {
+				c.Discard("mixed kinds in key")
+				return
+			}
+			if sortedDesc {
+				cmp = -cmp
+			}
+			if cmp > 0 {
+				c.Violate("out-of-order", fmt.Sprintf("rows at positions %d,%d violate key %q: %v then %v", i-1, i, sortedBy, a, b), map[string]any{"sql": base, "doc": doc(), "observed": val.Show(O)})
+				return
+			}
+		}
+		if n >= 3 {
+			c.Nontrivial(base + "|" + val.Canon(t.Array()))
+		}
 	}
 	offs := []int{0, 1, 2, n - 1, n, n + 1, src - 1, src, src + 1, (n + src) / 2}
 	lims := []int{0, 1, 2, n, src + 3}
